@@ -134,6 +134,7 @@ impl<'a, T: Subject> B<'a, T> {
 /// `model` must be the expected bits; if the subject's own (len, bits) differ from it that is
 /// reported as item "bits" and nothing else is tried.
 pub fn battery<T: Subject + AllPairs>(ctx: &mut Ctx, x: &T, model: &[bool], full: bool) -> Vec<Fail> {
+    let full = full && !ctx.lite_only;
     let n = model.len();
     // subject readable and equal to the model?
     let rb = guarded(|| (x.len(), read_bits(x)));
